@@ -1435,3 +1435,44 @@ pub mod c17state {
     pub struct GoodBuilder { pub exports: Vec<(String, RuntimeValue)> }
     pub struct GoodHandles { pub exports: Vec<(String, *mut RuntimeValue)> }
 }
+
+/// C03 R8 controls: a speculative parser that answers None has consumed nothing
+pub mod specparse {
+    #[derive(Clone, PartialEq)]
+    pub enum TokenKind { Readonly, LBracket, Other }
+    pub struct Lexer { pub toks: Vec<TokenKind>, pub pos: usize }
+    impl Lexer {
+        pub fn checkpoint(&self) -> usize { self.pos }
+        pub fn restore(&mut self, p: usize) { self.pos = p; }
+        pub fn next_token(&mut self) -> TokenKind { let t = self.toks.get(self.pos).cloned().unwrap_or(TokenKind::Other); self.pos += 1; t }
+    }
+    pub struct Parser { pub lexer: Lexer, pub current: TokenKind }
+    impl Parser {
+        fn advance(&mut self) { self.current = self.lexer.next_token(); }
+        fn match_token(&mut self, k: &TokenKind) -> bool { if &self.current == k { self.advance(); true } else { false } }
+        /// BAD: the modifier is consumed before the checkpoint, `None` is answered with it gone
+        pub fn try_bad(&mut self) -> Option<u32> {
+            let _m = self.match_token(&TokenKind::Readonly);
+            let cp = self.lexer.checkpoint();
+            let saved = self.current.clone();
+            if !self.match_token(&TokenKind::LBracket) {
+                self.lexer.restore(cp);
+                self.current = saved;
+                return None;
+            }
+            Some(1)
+        }
+        /// GOOD: checkpoint first
+        pub fn try_good(&mut self) -> Option<u32> {
+            let cp = self.lexer.checkpoint();
+            let saved = self.current.clone();
+            let _m = self.match_token(&TokenKind::Readonly);
+            if !self.match_token(&TokenKind::LBracket) {
+                self.lexer.restore(cp);
+                self.current = saved;
+                return None;
+            }
+            Some(1)
+        }
+    }
+}
